@@ -36,6 +36,8 @@ class DCMotor:
             speed = float(value)
         except (TypeError, ValueError) as exc:
             raise TypeError("speed must be a number") from exc
+        if speed != speed:
+            raise ValueError("speed must not be NaN")
         if speed > 1.0:
             return 1.0
         if speed < -1.0:
